@@ -27,7 +27,7 @@ fn env() -> Env {
 }
 
 /// call the migrate entry point directly on the store (no runtime rollback)
-fn migrate_raw(kv: &mut Kv, msg: MigrateMsg) -> Result<(), String> {
+pub(crate) fn migrate_raw(kv: &mut Kv, msg: MigrateMsg) -> Result<(), String> {
     let api = SimApi { prefix: PROTO_PREFIX };
     let q = NoQuerier;
     let deps = DepsMut { storage: kv, api: &api, querier: QuerierWrapper::new(&q) };
@@ -72,6 +72,16 @@ fn legacy_stores() -> Vec<Legacy> {
             }
         }
     }
+    // larger stores: more records than any page size a migration might use, consecutive keys,
+    // amounts beyond 64 bits, keys beyond 32 bits
+    for n in [11u64, 12, 25, 40] {
+        let pk: Vec<(u64, u64, u128, PS)> = (1..=n).map(|k| (k, k, if k % 5 == 0 { (1u128 << 100) + k as u128 } else { 10 + 7 * k as u128 }, statuses()[(k % 4) as usize].clone())).collect();
+        let replies: Vec<(u64, u128)> = (0..(n.min(13))).map(|i| (1_700_000_000_000_000_000 + i, 33 + i as u128)).collect();
+        out.push(Legacy { packets: pk, replies });
+    }
+    // (a sequence of u64::MAX is not reachable on a channel and would overflow the reply id of the next
+    // recovery; the largest key used is 2^63 + 11)
+    out.push(Legacy { packets: vec![(1, 1, 5, PS::TimedOut), ((1 << 32) + 5, (1 << 32) + 5, 6, PS::AckFailure), ((1 << 63) + 11, (1 << 63) + 11, 7, PS::Sent)], replies: vec![((1 << 63) + 12, 9)] });
     out
 }
 
@@ -248,7 +258,7 @@ fn v110_grid(r: &mut Runner, thorough: bool) {
     r.require(acc as usize >= stores.len(), "C18: the 1.0.0 -> 1.1.0 path must succeed on every legacy store shape");
 }
 
-fn old_config_0_4_18(k: &K, monitors: Option<bool>, oracle: bool) -> v0_4_18::Config {
+pub(crate) fn old_config_0_4_18(k: &K, monitors: Option<bool>, oracle: bool) -> v0_4_18::Config {
     v0_4_18::Config {
         native_token_denom: staked_denom(),
         liquid_stake_token_denom: format!("factory/{}/umilkTIA", contract_addr()),
